@@ -9,6 +9,16 @@ an oracle written from the property text alone, with the simulators of harness/c
 number of qubits, every wire inside it, not more gates, same unitary (state-vector simulator,
 <= 6 qubits; classical action on every basis state for larger all-classical circuits), the input
 circuit deep-equal to what it was and sharing no gate object / wire list with the result.
+Wider circuits with non-classical gates (`judge_wide`): the non-classical gates of the result must be those of the
+input, in order, and every classical stretch between them must have the input stretch's action on every assignment
+of the qubits the two touch (more than 12: a fixed sample) - this implies equal unitaries; a dense pseudo-random
+state is pushed through both circuits as well where that is cheap.
+
+Gate OBJECTS shared between positions / sections (`qc += sub` twice, append_circuit twice, `qc += qc`: equal
+applied-gate tuples at several positions) are built gate by gate (equal JSON id > 0 = one object) and through the
+real composition API (`circ.build_api`): `sharing_cases`, `random_shared_cases`, `random_api_cases`.  Circuits on
+10/11/12/16 qubits (from 11 on the textual order of q0..q{n-1} is not the index order) and circuits with
+user-chosen qubit names: `wide_cases`, `random_wide_cases`.
 
 Correspondence: the run is logged (sections found, the simplified expressions handed to
 `exprs_to_quantum`, the ancillas popped, the re-synthesised circuit, every `simplify_logic`
@@ -23,6 +33,7 @@ from __future__ import annotations
 
 import itertools
 import json
+import random
 
 from . import bexp, circ
 from .common import Ctx, Result
@@ -30,8 +41,12 @@ from .compiler_common import canon_gates
 
 LEVEL = "proof"
 QUIRK = "spliceIgnoresRename"
-MAX_SV = 6       # state-vector oracle up to this many qubits
+MAX_SV = 6       # state-vector oracle (whole unitary) up to this many qubits
 MAX_CL = 12      # classical oracle (all basis states) up to this many qubits
+NARROW = 10      # model side: per-section validator / expression check on the involved qubits from this width on
+EXH_BITS = 12    # wider circuits: all assignments of the qubits a classical stretch touches, when at most so many
+SV_WORK = 40000  # wider circuits with non-classical gates: one dense pseudo-random state is pushed through both
+                 # circuits when 2^n * (number of gates) stays below this
 
 
 def G(c, w, n=0, g="", p=None):
@@ -67,14 +82,46 @@ def sim_classical(gates, state):
     return s
 
 
+def compile_cl(gates):
+    """classical gates as (control mask, target bit) pairs over basis states written as integers (bit i = qubit i)"""
+    out = []
+    for d in gates:
+        if d["c"] == "I" or is_nop(d):
+            continue
+        w = d["w"]
+        out.append((sum(1 << i for i in w[:-1]), 1 << w[-1]))
+    return out
+
+
+def run_cl(comp, k):
+    for cm, tb in comp:
+        if k & cm == cm:
+            k ^= tb
+    return k
+
+
+def bits(k, n):
+    return [bool((k >> i) & 1) for i in range(n)]
+
+
+def bitstr(k, n):
+    return "".join("1" if (k >> i) & 1 else "0" for i in range(n))
+
+
 # ------------------------------------------------------------------ the real code, logged
 
-def code_optimize(n, gates):
-    """run the real circuit_boolean_optimizer on a fresh real circuit; log what the model needs"""
+def code_optimize(n, gates, opts=None):
+    """run the real circuit_boolean_optimizer on a fresh real circuit; log what the model needs.
+    The circuit is built gate by gate (equal id > 0 = the same gate object at several positions, `names` = user-chosen
+    qubit names) or, when the case carries a recipe, through the library's own composition API"""
     from qlasskit.decompiler import decopt
     from qlasskit.qcircuit import QCircuitEnhanced
 
-    qc = circ.build_qc(n, gates, share_ids=False)
+    opts = opts or {}
+    if opts.get("recipe"):
+        qc = circ.build_api(opts["recipe"])
+    else:
+        qc = circ.build_qc(n, gates, share_ids=True, names=opts.get("names"))
     before = circ.qc_to_json(qc)
     before_meta = (qc.num_qubits, dict(qc.qubit_map))
     in_ids = set()
@@ -199,12 +246,11 @@ def judge(n, gates, out, full=True):
         return None
     all_cl = all(is_cl(d) or is_nop(d) for d in gates) and all(is_cl(d) or is_nop(d) for d in res)
     if all_cl and n <= MAX_CL:
-        for k in range(2 ** n):
-            st = [bool((k >> i) & 1) for i in range(n)]
-            a, b = sim_classical(gates, st), sim_classical(res, st)
-            if a != b:
-                return ("result and input act differently on basis state " + "".join("1" if x else "0" for x in st),
-                        dict(state=st, input_gives=a, result_gives=b))
+        bad = differ_on(n, gates, res, sorted({i for d in gates + res for i in d["w"]}))
+        if bad is not None:
+            return ("result and input act differently on basis state " + bitstr(bad, n),
+                    dict(state=bits(bad, n), input_gives=sim_classical(gates, bits(bad, n)),
+                         result_gives=sim_classical(res, bits(bad, n))))
         return None
     if n <= MAX_SV:
         ua, ub = circ.unitary(n, gates), circ.unitary(n, res)
@@ -212,7 +258,87 @@ def judge(n, gates, out, full=True):
             col = next(c for c in range(2 ** n) if any(abs(ua[r][c] - ub[r][c]) >= 1e-9 for r in range(2 ** n)))
             return (f"unitaries differ (column of basis state {col})", dict(column=col))
         return None
-    return None  # too large for the oracle (not generated)
+    return judge_wide(n, gates, res)
+
+
+def stretches(gates):
+    """split at the gates that are neither classical nor no-ops: (separators, classical stretches between them)"""
+    seps, segs, cur = [], [], []
+    for d in gates:
+        if is_cl(d) or is_nop(d):
+            cur.append(d)
+        else:
+            seps.append(d)
+            segs.append(cur)
+            cur = []
+    segs.append(cur)
+    return seps, segs
+
+
+def keys_over(n, used):
+    """basis states (as integers) over the qubits `used`, the others 0: all of them, or - more than EXH_BITS qubits -
+    0..0, 1..1, every state of weight 1 / co-weight 1 and 300 fixed pseudo-random ones"""
+    m = len(used)
+    if m <= EXH_BITS:
+        ks = range(2 ** m)
+    else:
+        r = random.Random(f"{n}:{used}")
+        ks = [0, 2 ** m - 1] + [1 << i for i in range(m)] + [(2 ** m - 1) ^ (1 << i) for i in range(m)] + \
+             [r.getrandbits(m) for _ in range(300)]
+    if used == list(range(m)):
+        yield from ks
+        return
+    for k in ks:
+        v = 0
+        for b, i in enumerate(used):
+            if (k >> b) & 1:
+                v |= 1 << i
+        yield v
+
+
+def states_over(n, used):
+    for k in keys_over(n, used):
+        yield bits(k, n)
+
+
+def differ_on(n, a, b, used):
+    """first basis state over the qubits `used` (the qubits the two classical gate lists touch; no gate can depend on
+    or change another one) on which the lists act differently, or None"""
+    ca, cb = compile_cl(a), compile_cl(b)
+    for k in keys_over(n, used):
+        if run_cl(ca, k) != run_cl(cb, k):
+            return k
+    return None
+
+
+def judge_wide(n, gates, res):
+    """circuits too wide for the whole unitary: the gates that are neither classical nor no-ops must be the same, in
+    the same order, and every classical stretch between them must act as the input's stretch does, on every
+    assignment of the qubits the two touch (more than EXH_BITS qubits: 0..0, 1..1, weight 1, co-weight 1 and 300
+    fixed pseudo-random states).  This implies equal unitaries.  Where affordable a dense pseudo-random state is
+    pushed through both circuits as well."""
+    sa, ga = stretches(gates)
+    sb, gb = stretches(res)
+    if [gkey(d) for d in sa] != [gkey(d) for d in sb]:
+        return ("the non-classical gates of the result are not those of the input, in order",
+                dict(non_classical=short(sa), result_has=short(sb)))
+    for k, (a, b) in enumerate(zip(ga, gb)):
+        if [gkey(d) for d in a if not is_nop(d)] == [gkey(d) for d in b if not is_nop(d)]:
+            continue
+        bad = differ_on(n, a, b, sorted({i for d in a + b for i in d["w"]}))
+        if bad is not None:
+            st = bits(bad, n)
+            return ("result and input act differently on basis state " + bitstr(bad, n) +
+                    (f" (classical stretch {k}, between the non-classical gates)" if sa else ""),
+                    dict(state=st, input_gives=sim_classical(a, st), result_gives=sim_classical(b, st),
+                         stretch=short(a), result_stretch=short(b)))
+    if sa and 2 ** n * (len(gates) + len(res)) <= SV_WORK:
+        r = random.Random(f"sv{n}")
+        st = [complex(r.uniform(-1, 1), r.uniform(-1, 1)) for _ in range(2 ** n)]
+        va, vb = circ.run_sv(n, gates, st), circ.run_sv(n, res, st)
+        if any(abs(x - y) >= 1e-9 for x, y in zip(va, vb)):
+            return ("unitaries differ (a dense test state is mapped differently)", dict())
+    return None
 
 
 # ------------------------------------------------------------------ comparison with the model
@@ -220,7 +346,8 @@ def judge(n, gates, out, full=True):
 def model_request(n, gates, out, quirks):
     secs = [dict(start=s["start"], exprs=s.get("exprs", []), choices=s.get("choices", [])) for s in out.get("sections", [])
             if "exprs" in s]
-    return dict(op="c12.optimize", n=n, gates=gates, quirks=quirks, sections=secs)
+    # from NARROW qubits on the model's per-section checks run on the qubits a section involves (see QV/Drive/C12.lean)
+    return dict(op="c12.optimize", n=n, gates=gates, quirks=quirks, sections=secs, narrow=(n >= NARROW))
 
 
 def code_accepts(s):
@@ -285,24 +412,22 @@ def check_simp_oracle(n, s):
     compiler describe the section's gates on every basis state of the qubits they mention"""
     names = [f"q{i}" for i in range(n)]
     ex = {k: e for k, e in s.get("exprs", [])}
-    used = sorted({i for d in s["old"] for i in d["w"]})
-    for e in ex.values():
-        for nm in bexp.syms_json(e):
+    used = {i for d in s["old"] for i in d["w"]}
+    for k, e in ex.items():
+        for nm in [k] + list(bexp.syms_json(e)):
             if nm not in names:
                 return f"unknown symbol {nm}"
-            if int(nm[1:]) not in used:
-                used.append(int(nm[1:]))
-    for k in range(2 ** len(used)):
-        st = [False] * n
-        for b, i in enumerate(used):
-            st[i] = bool((k >> b) & 1)
-        fin = sim_classical(s["old"], st)
-        env = {names[i]: st[i] for i in range(n)}
-        for i in range(n):
-            want = fin[i]
-            got = bexp.eval_json(ex[names[i]], env) if names[i] in ex else st[i]
+            used.add(int(nm[1:]))
+    used = sorted(used)
+    comp = compile_cl(s["old"])
+    for k in keys_over(n, used):
+        fin = run_cl(comp, k)
+        env = {names[i]: bool((k >> i) & 1) for i in used}
+        for i in used:
+            want = bool((fin >> i) & 1)
+            got = bexp.eval_json(ex[names[i]], env) if names[i] in ex else env[names[i]]
             if want != got:
-                return f"expression of q{i} wrong on {''.join('1' if x else '0' for x in st)}"
+                return f"expression of q{i} wrong on {bitstr(k, n)}"
     return None
 
 
@@ -313,11 +438,16 @@ def active(ctx):
 
 def check_batch(ctx, res, cases, bucket, full=True):
     quirks, fid = active(ctx)
-    outs = [code_optimize(n, gates) for n, gates in cases]
+    cases = [c if len(c) == 3 else (c[0], c[1], None) for c in cases]
+    optss = [c[2] for c in cases]
+    cases = [(c[0], c[1]) for c in cases]
+    outs = [code_optimize(n, gates, opts) for (n, gates), opts in zip(cases, optss)]
     reqs, simp_idx = [], []
     for (n, gates), out in zip(cases, outs):
         reqs.append(model_request(n, gates, out, quirks))
-        reqs.append(model_request(n, gates, out, []))
+        if quirks:
+            reqs.append(model_request(n, gates, out, []))
+    step = 2 if quirks else 1       # no active quirk: the repaired model is the model of the code as it is
     nmain = len(reqs)
     for i, out in enumerate(outs):
         rq, metas = simp_requests(out)
@@ -326,9 +456,27 @@ def check_batch(ctx, res, cases, bucket, full=True):
     replies = ctx.model(reqs)
     for idx, ((n, gates), out) in enumerate(zip(cases, outs)):
         case = dict(n=n, gates=short(gates), gates_json=gates)
+        opts = optss[idx]
+        nshared = circ.shared_positions(gates)
+        if nshared:
+            case["same_gate_object_as_an_earlier_position"] = [i for i, d in enumerate(gates) if d.get("id") and
+                                                               any(e.get("id") == d["id"] for e in gates[:i])]
+            res.extra["cases_with_shared_gate_objects"] = res.extra.get("cases_with_shared_gate_objects", 0) + 1
+        if n >= 10:
+            res.extra["cases_on_10_or_more_qubits"] = res.extra.get("cases_on_10_or_more_qubits", 0) + 1
+        if opts:
+            if opts.get("names"):
+                case["names"] = opts["names"]
+            if opts.get("recipe"):
+                case["recipe"] = opts["recipe"]
+                res.extra["cases_built_through_the_api"] = res.extra.get("cases_built_through_the_api", 0) + 1
+            if opts.get("api_mismatch"):
+                res.disagree(case, "the circuit the library's composition API builds is not the gate list the recipe denotes",
+                             code=opts["api_mismatch"])
         ncl = sum(1 for d in gates if is_cl(d))
         changed = "gates" in out and [gkey(d) for d in out["gates"]] != [gkey(d) for d in gates]
-        res.count(dict(n=n, gates=case["gates"]), nontrivial=(ncl >= 2 and len(gates) >= 2), bucket=bucket)
+        res.count({k: v for k, v in case.items() if k != "gates_json"} if (opts or nshared) else dict(n=n, gates=case["gates"]),
+                  nontrivial=(ncl >= 2 and len(gates) >= 2), bucket=bucket)
         key = "changed" if changed else "unchanged"
         res.extra.setdefault("outcomes", {})
         res.extra["outcomes"][key] = res.extra["outcomes"].get(key, 0) + 1
@@ -345,7 +493,7 @@ def check_batch(ctx, res, cases, bucket, full=True):
         agree = None
         rep_q = rep_n = None
         if replies is not None and not out.get("unsupported"):
-            rep_q, rep_n = replies[2 * idx], replies[2 * idx + 1]
+            rep_q, rep_n = replies[step * idx], replies[step * idx + step - 1]
             agree = compare(n, gates, out, rep_q)
             if agree is not None:
                 res.disagree(case, "model (with the active quirks) and code differ: " + agree, code=c_code,
@@ -376,7 +524,10 @@ def check_batch(ctx, res, cases, bucket, full=True):
                             res.disagree(case, "the repaired model accepts a re-synthesis that is not the X gates of the "
                                                "section's self-negations (contradicts the proved accepted_xonly)",
                                          model=dict(section=[ms["start"], ms["stop"]], new=short(ms["new"])))
-                v_n = judge(n, gates, dict(gates=rep_n["gates"], num_qubits=n), full)
+                if verdict is None and [gkey(d) for d in rep_n["gates"]] == [gkey(d) for d in out["gates"]]:
+                    v_n = None          # the gate list the code returned, which the oracle has just accepted
+                else:
+                    v_n = judge(n, gates, dict(gates=rep_n["gates"], num_qubits=n), full)
                 if v_n is not None:
                     res.disagree(case, "the repaired model violates the oracle: " + v_n[0], model=dict(gates=short(rep_n["gates"])))
             elif "error" not in out:
@@ -559,6 +710,187 @@ def random_cases(rng, count, max_n):
             yield (n, circ.rand_circuit(rng, n, rng.randint(4, 14), classical_only=True))
 
 
+# ---------------------------------------------------------------- shared gate objects, wide circuits
+
+WIDE = (10, 11, 12, 16)
+
+
+def remap(gates, m):
+    return [dict(d, w=[m[i] for i in d["w"]]) for d in gates]
+
+
+def sharing_cases():
+    """one gate OBJECT at several positions / in several sections (what `qc += sub` twice produces; equal applied-gate
+    tuples when the wires are the same too): gate by gate (ids) and through the real composition API"""
+    B = G("Barrier", [])
+    out = []
+    Hs, Bs = dict(SEPS[0], id=90), dict(B, id=92)
+    names = list(SECTIONS)
+    gate = lambda d: dict(op="gate", g=d)
+    iadd = lambda k: dict(op="iadd", sub=k)
+    app = lambda k, q: dict(op="append_circuit", sub=k, qubits=q)
+    for i, nm in enumerate(names):
+        r, r2 = SECTIONS[nm], SECTIONS[names[(i + 3) % len(names)]]
+        s, t = circ.with_ids(r, 1), circ.with_ids(r2, 30)
+        rot = [dict(d, w=[(k + 1) % 3 for k in d["w"]]) for d in s]
+        sep, sep2 = SEPS[i % len(SEPS)], SEPS[(i + 4) % len(SEPS)]
+        out.append((3, s + [sep] + s))
+        out.append((3, s + [sep] + s + [B, sep2] + s))
+        out.append((3, t + [sep] + s + [sep2] + t + [B, sep] + s))
+        out.append((3, s + [Hs] + s[:1] + t))
+        out.append((3, s + [Hs] + s[1:] + [Hs] + s[-1:] + [Hs] + s))
+        out.append((3, s + [Hs] + rot + [Hs] + s))
+        out.append((3, s + [Bs, Hs, Bs] + s + [Bs]))
+        out.append((3, s + s + [Hs] + s))
+        # same first objects, same length, other last gate
+        out.append((3, s + [Hs] + s[:-1] + [G("X", [2])] + [Hs] + s[:-1] + [G("X", [0])]))
+        out.append((3, s[:-1] + [G("X", [1])] + [Hs] + s))
+        out.append((5, s + [G("H", [4])] + t + [G("H", [3])] + s))
+        subs = [dict(n=3, gates=r), dict(n=3, gates=r2), dict(n=3, gates=[SEPS[0]] + r + [SEPS[3], B] + r2)]
+        for steps, n in [
+            ([iadd(0), gate(sep), iadd(0)], 3),
+            ([iadd(1), gate(sep), iadd(0), gate(B), gate(sep2), iadd(1), gate(sep), iadd(0)], 3),
+            ([app(0, [1, 2, 3]), gate(G("H", [4])), app(0, [1, 2, 3])], 5),
+            ([app(0, [4, 2, 0]), gate(G("T", [1])), app(1, [4, 2, 0]), gate(G("T", [1])), app(0, [4, 2, 0])], 5),
+            ([iadd(0), gate(sep), dict(op="iadd_self")], 3),
+            ([gate(sep2), iadd(0), dict(op="repeat", times=2)], 3),
+            ([iadd(0), gate(sep), dict(op="add", sub=0)], 3),
+            ([iadd(2), iadd(2)], 3),
+        ]:
+            out.append(circ.api_case(dict(n=n, subs=subs, steps=steps)))
+        nms = circ.name_schemes(5)
+        out.append(circ.api_case(dict(n=5, names=nms[("letters", "reversed-q", "shifted-q")[i % 3]], subs=subs,
+                                      steps=[app(0, [1, 2, 3]), gate(G("H", [4])), app(0, [1, 2, 3]), gate(G("H", [0])), app(1, [3, 4, 0])])))
+    return out
+
+
+def wide_triples(n):
+    return [(2, 3, 4), (n - 1, 2, n - 2), (3, 2, n - 1), (n - 2, n - 1, n - 3), (1, n - 1, 0), (4, 3, 2), (8, 1, n - 1), (2, 9, 8)]
+
+
+def x_over_all(n, xs):
+    """a section touching every qubit (cancelling CX pairs, ordered so that no target is a control later: the
+    decompiled expressions stay small) whose net action is X on the qubits xs"""
+    gs = []
+    for i in reversed(range(n - 1)):
+        if i + 1 in xs:
+            gs.append(G("X", [i + 1]))
+        gs += [G("CX", [i, i + 1])] * 2
+    if 0 in xs:
+        gs.append(G("X", [0]))
+    return gs
+
+
+def wide_cases():
+    """circuits on 10, 11, 12, 16 qubits (from 11 qubits on the textual order of the default qubit names is not their
+    index order), also with user-chosen qubit names"""
+    B = G("Barrier", [])
+    out = []
+    names = list(SECTIONS)
+    for n in WIDE:
+        trs = wide_triples(n)
+        nms = circ.name_schemes(n)
+        schemes = [k for k in nms if k != "default"]
+        for i, nm in enumerate(names):
+            r = SECTIONS[nm]
+            for j in (0, 1):
+                m, m2 = trs[(i + 3 * j) % len(trs)], trs[(i + 3 * j + 1) % len(trs)]
+                sep = remap([SEPS[(i + j) % len(SEPS)]], m2)
+                if j == 0:
+                    out.append((n, remap(r, m)))
+                    out.append((n, remap(r, m) + sep + remap(SECTIONS[names[(i + 5) % len(names)]], m2) + [B] + sep))
+                else:
+                    out.append((n, sep + remap(r, m) + [G("H", [n - 1])], dict(names=nms[schemes[i % len(schemes)]])))
+            m = trs[i % len(trs)]
+            s = circ.with_ids(remap(r, m), 1)
+            out.append((n, s + [G("H", [n - 1])] + s))
+        for k, xs in enumerate(([2], [n - 1], [2, n - 1], [3, 4], list(range(0, n, 2)), list(range(n)))):
+            out.append((n, x_over_all(n, xs)))
+            if k % 2 == 0:
+                out.append((n, [G("H", [1])] + x_over_all(n, xs) + [G("CZ", [n - 1, 2])] + x_over_all(n, xs[:1])))
+        out.append((n, x_over_all(n, [2, n - 2]), dict(names=nms["reversed-q"])))
+        out.append((n, x_over_all(n, [3]) + [G("S", [n - 1])], dict(names=nms["words"])))
+        # X gates that do not cancel, on the qubits whose names sort elsewhere, next to a cancelling pair on their neighbours
+        for a in (2, 3, 9, n - 1):
+            b, c = (a + 1) % n, (a + 2) % n
+            out.append((n, [G("X", [a]), G("CX", [b, c]), G("CX", [b, c]), G("X", [b]), G("X", [b])]))
+            out.append((n, [G("T", [a]), G("X", [a]), G("CCX", [a, b, c]), G("X", [a]), G("H", [c]), G("X", [a]), G("X", [c]), G("X", [b]), G("X", [c])]))
+    return out
+
+
+def random_shared_cases(rng, count):
+    for k in range(count):
+        n = rng.randint(2, 5)
+        pool = []
+        for i in range(rng.randint(2, 5)):
+            d = circ.rand_gate(rng, n, kinds=["X", "CX", "CCX", "MCX", "X", "CX", "X", "H", "Swap", "T", "CZ", "Barrier", "MCtrlX"])
+            pool.append(dict(d, id=i + 1))
+        gs = []
+        for _ in range(rng.randint(2, 12)):
+            d = dict(rng.choice(pool))
+            x = rng.random()
+            if x < 0.15 and d["w"]:
+                d["w"] = rng.sample(range(n), len(d["w"]))
+            elif x < 0.25:
+                d["id"] = 0
+            gs.append(d)
+        yield (n, gs)
+
+
+def random_api_cases(rng, count):
+    for k in range(count):
+        n = rng.randint(3, 5)
+        subs = []
+        for _ in range(rng.randint(1, 3)):
+            m = rng.randint(1, min(n, 3))
+            gs = cancel_section(rng, m) if rng.random() < 0.5 else \
+                [circ.rand_gate(rng, m, kinds=["X", "CX", "CCX", "X", "CX", "H", "T", "Barrier"]) for _ in range(rng.randint(1, 4))]
+            subs.append(dict(n=m, gates=gs))
+        steps = []
+        for _ in range(rng.randint(2, 5)):
+            x = rng.random()
+            j = rng.randrange(len(subs))
+            if x < 0.4:
+                steps.append(dict(op="append_circuit", sub=j, qubits=rng.sample(range(n), subs[j]["n"])))
+            elif x < 0.6:
+                steps.append(dict(op="iadd", sub=j))
+            elif x < 0.66:
+                steps.append(dict(op="iadd_self"))
+            elif x < 0.72:
+                steps.append(dict(op="repeat", times=rng.randint(1, 2)))
+            elif x < 0.78:
+                steps.append(dict(op="add", sub=j))
+            else:
+                steps.append(dict(op="gate", g=circ.rand_gate(rng, n, kinds=["H", "Z", "S", "Swap", "CZ", "X", "CX", "Barrier"])))
+        nms = rng.choice(list(circ.name_schemes(n).values()))
+        c = circ.api_case(dict(n=n, names=nms, subs=subs, steps=steps))
+        if len(c[1]) <= 40:
+            yield c
+
+
+def random_wide_cases(rng, count):
+    for k in range(count):
+        n = rng.choice([10, 11, 12, 13, 16])
+        hot = sorted({0, 1, 2, 3, 4, 9, n - 1, n - 2, n - 3})
+        gs = []
+        for _ in range(rng.randint(1, 3)):
+            m = rng.randint(2, 5)
+            q = rng.sample(hot if rng.random() < 0.6 else range(n), m)
+            x = rng.random()
+            sec = perm_section(rng, m) if x < 0.3 else cancel_section(rng, m) if x < 0.7 else \
+                cancel_section(rng, m) + [G("X", [rng.randrange(m)]) for _ in range(rng.randint(1, 3))]
+            gs += remap(sec, q)
+            if rng.random() < 0.3:
+                gs.append(G("Barrier", []))
+            gs.append(circ.rand_gate(rng, n, kinds=["H", "Z", "S", "T", "Swap", "CZ", "Y"]))
+        if rng.random() < 0.5:
+            gs.pop()
+        if k % 5 == 0:
+            gs = x_over_all(n, rng.sample(range(n), rng.randint(1, 4))) + gs
+        nms = rng.choice(list(circ.name_schemes(n).values())) if k % 2 else None
+        yield (n, gs, dict(names=nms))
+
+
 def compiled_cases(ctx, count):
     """circuits of compiled qlasskit programs (all classical, up to MAX_CL qubits)"""
     from . import progs
@@ -592,13 +924,23 @@ def run(ctx: Ctx) -> Result:
         "cancelling runs) alone / between every separator gate / with a barrier at every inner position / paired with "
         "other sections; every gate kind alone and next to a section; all X/CX/CCX strings of length <= L on 3 qubits "
         "(L=4 thorough, 3 quick); random circuits over the full gate set on 1..6 qubits, random permutation / cancelling "
-        "sections between separators, compiled programs; case = (n, gate list); non-trivial = at least two classical gates"
+        "sections between separators, compiled programs; every section shape with its gate objects occurring again in later "
+        "sections (built gate by gate and through qc += sub, append_circuit, qc += qc, repeat, +); every section shape on "
+        "10/11/12/16 qubits at several places incl. the qubits whose names sort differently as text, sections touching every "
+        "qubit, user-chosen qubit names (judged by the classical action on all / sampled basis states and gate-by-gate "
+        "identity of the non-classical gates); random variants of these; "
+        "case = (n, gate list[, qubit names, recipe]); non-trivial = at least two classical gates"
     )
     check_batch(ctx, res, systematic_cases(), "systematic")
+    check_batch(ctx, res, sharing_cases(), "shared-objects")
+    check_batch(ctx, res, wide_cases(), "wide")
     check_batch(ctx, res, list(strings_cases(4 if ctx.thorough else 3)), "strings12")
     rc = list(random_cases(rng, 24000 if ctx.thorough else 2400, MAX_SV if ctx.thorough else 5))
     for i in range(0, len(rc), 2000):
         check_batch(ctx, res, rc[i:i + 2000], "random")
+    check_batch(ctx, res, list(random_shared_cases(rng, 2000 if ctx.thorough else 150)), "random-shared")
+    check_batch(ctx, res, list(random_api_cases(rng, 1000 if ctx.thorough else 80)), "random-api")
+    check_batch(ctx, res, list(random_wide_cases(rng, 1000 if ctx.thorough else 80)), "random-wide")
     check_batch(ctx, res, compiled_cases(ctx, 150 if ctx.thorough else 25), "compiled")
     res.exhaustive = True
     res.notes.append("X/CX/CCX strings on 3 qubits enumerated completely up to the stated length; section patterns "
@@ -635,8 +977,13 @@ def replay(ctx: Ctx, payload):
             print("no failing input in this replay file (tie-broken record)")
             return 2
     n, gates = case["n"], case["gates_json"]
-    print("replaying", json.dumps(short(gates)), "on", n, "qubits")
-    out = code_optimize(n, gates)
+    opts = dict(names=case.get("names"), recipe=case.get("recipe"))
+    print("replaying", json.dumps(short(gates)), "on", n, "qubits" +
+          (", built through the composition API" if opts["recipe"] else "") +
+          (f", qubit names {opts['names']}" if opts["names"] else ""))
+    if case.get("same_gate_object_as_an_earlier_position"):
+        print("positions holding a gate object of an earlier position:", case["same_gate_object_as_an_earlier_position"])
+    out = code_optimize(n, gates, opts)
     print("code:", json.dumps(dict(error=out["error"]) if "error" in out else dict(gates=short(out["gates"]), num_qubits=out["num_qubits"])))
     v = judge(n, gates, out)
     print("oracle:", "property holds" if v is None else v[0])
